@@ -24,7 +24,10 @@ Fixpoint mem_z (x : Z) (l : text) : bool :=
 (* outcome of import_public_key on the key field of a line:
    KOk id   the key parsed; id identifies the public key
    KBad     KeyImportError (the loaders skip the line)
-   KRaise   any other exception (not caught by the loaders) *)
+   KRaise   any other exception (not caught by the loaders).  Since repair e01fa70 the importer
+            reports impossible key parameters as KeyImportError; the theorems about skipped lines
+            carry "the importer never raises anything else" as an explicit premise and the
+            correspondence checks that the recorded importer outcomes satisfy it. *)
 Inductive keyres := KOk (id : Z) | KBad | KRaise.
 
 Record ext := {
@@ -372,8 +375,11 @@ Definition keys_with (m : marker) (es : list entry) : list Z :=
   map snd (filter (fun e => marker_eqb (fst e) m) es).
 
 (* SSHKnownHosts._match ; port = 0 stands for None (both are falsy in `if port:`).
-   None = ValueError (addr given but not an IP address) *)
-Definition kh_match (x : ext) (st : kh_state) (host addr : text) (port : Z) : option kh_result :=
+   None = ValueError (addr given but not an IP address).
+   [guard] = the exact index is consulted only for a non-empty name (repair 1ebb7df);
+   guard = false is the code before that repair (kept for the _old refutation). *)
+Definition kh_match_gen (guard : bool) (x : ext) (st : kh_state) (host addr : text) (port : Z)
+  : option kh_result :=
   let ipr :=
     match addr with
     | [] => Some (parse_ip x host)
@@ -385,19 +391,38 @@ Definition kh_match (x : ext) (st : kh_state) (host addr : text) (port : Z) : op
       let host' := if port =? 0 then host else with_port host port in
       let addr' := if port =? 0 then addr else with_port addr port in
       let ms :=
-        map snd (filter (fun e => zlist_eqb (fst e) host') (kh_exact st)) ++
-        map snd (filter (fun e => zlist_eqb (fst e) addr') (kh_exact st)) ++
+        map snd (filter (fun e => (negb guard || nonempty host') && zlist_eqb (fst e) host') (kh_exact st)) ++
+        map snd (filter (fun e => (negb guard || nonempty addr') && zlist_eqb (fst e) addr') (kh_exact st)) ++
         map snd (filter (fun e => hostpat_match x (fst e) host' addr' ip) (kh_pats st)) in
       Some {| r_host := keys_with MNone ms; r_ca := keys_with MCA ms; r_revoked := keys_with MRevoked ms |}
   end.
 
-(* SSHKnownHosts.match : retry without the port when no trusted key / CA was found *)
+Definition kh_match := kh_match_gen true.
+Definition kh_match_old := kh_match_gen false.
+
+(* SSHKnownHosts.match : retry without the port when no trusted key / CA was found; the revoked
+   keys of the lookup with the port are kept in front of those of the retry (repair 890407a) *)
 Definition kh_lookup_st (x : ext) (st : kh_state) (host addr : text) (port : Z) : option kh_result :=
   match kh_match x st host addr port with
   | None => None
   | Some r =>
       if negb (port =? 0) && negb (nonempty (r_host r) || nonempty (r_ca r))
-      then kh_match x st host addr 0
+      then match kh_match x st host addr 0 with
+           | Some r2 => Some {| r_host := r_host r2; r_ca := r_ca r2;
+                                r_revoked := r_revoked r ++ r_revoked r2 |}
+           | None => None
+           end
+      else Some r
+  end.
+
+(* the code before 890407a and 1ebb7df: the retry replaced all three lists, and the exact index
+   was consulted for empty names too *)
+Definition kh_lookup_st_old (x : ext) (st : kh_state) (host addr : text) (port : Z) : option kh_result :=
+  match kh_match_old x st host addr port with
+  | None => None
+  | Some r =>
+      if negb (port =? 0) && negb (nonempty (r_host r) || nonempty (r_ca r))
+      then kh_match_old x st host addr 0
       else Some r
   end.
 
@@ -410,3 +435,9 @@ Definition kh_lookup_lines (x : ext) (lines : list text) (host addr : text) (por
 
 Definition kh_lookup (x : ext) (t : text) (host addr : text) (port : Z) : option kh_result :=
   kh_lookup_lines x (splitlines t) host addr port.
+
+Definition kh_lookup_lines_old (x : ext) (lines : list text) (host addr : text) (port : Z) : option kh_result :=
+  match kh_load_lines x lines kh_empty with
+  | Some st => kh_lookup_st_old x st host addr port
+  | None => None
+  end.
